@@ -1,17 +1,22 @@
 #!/bin/bash
 # tools/triage_refactor.sh <PROP> <worktree>: for each behaviour-preserving change refactorK.diff written by a sub-agent: keep it under
-# /verif/refactors/<PROP>-rK/, apply it to a scratch copy of the CURRENT /repo HEAD, run the agent's holds.py on that copy (must
-# exit 0: the property still holds) and ./check PROP (must not print VIOLATION: anything else than OK / UNDECIDED is a false alarm)
+# /verif/refactors/<PROP>-rK/, apply it (3-way, the agent's base may be a few fix: commits behind) to a scratch worktree of the CURRENT
+# /repo HEAD, run the agent's holds.py there (must exit 0: the property still holds) and ./check PROP with VERIF_REPO (must not print
+# VIOLATION: anything but OK / UNDECIDED is a false alarm)
 PROP=$1; WT=$2
 for k in 1 2 3; do
   [ -f $WT/_seed/refactor$k.diff ] || continue
   D=/verif/refactors/$PROP-r$k; mkdir -p $D
   cp $WT/_seed/refactor$k.diff $D/patch.diff; cp $WT/_seed/refactor$k.txt $D/why.txt 2>/dev/null; cp $WT/_seed/holds.py $D/holds.py 2>/dev/null
-  T=$(mktemp -d /tmp/rfcXXXX); git -C /repo archive HEAD inference | tar -x -C $T
-  (cd $T && patch -s -p1 < $D/patch.diff) || { echo "$PROP r$k: PATCH DOES NOT APPLY"; rm -rf $T; continue; }
-  (cd $T && PYTHONPATH=$T MPLBACKEND=Agg timeout 600 /venv/bin/python $D/holds.py > /tmp/holds_$PROP_$k.out 2>&1); h=$?
+  T=/tmp/rfc_${PROP}_$k; rm -rf $T; git -C /repo worktree add -q --detach $T HEAD
+  if ! (cd $T && git apply --3way $D/patch.diff >/dev/null 2>&1 && [ -z "$(git diff --name-only --diff-filter=U)" ]); then
+    echo "$PROP r$k: CONFLICT with later fix: commits (skipped)"; echo "{\"property\": \"$PROP\", \"skipped\": \"conflict\"}" > $D/verdict.json
+    git -C /repo worktree remove --force $T; continue
+  fi
+  (cd $T && git diff HEAD -- inference > $D/patch.diff)
+  (cd $T && PYTHONPATH=$T MPLBACKEND=Agg timeout 900 /venv/bin/python $D/holds.py > /tmp/holds_${PROP}_$k.out 2>&1); h=$?
   cd /verif; VERIF_REPO=$T ./check $PROP > /tmp/rfcheck_${PROP}_$k.out 2>&1; rc=$?
   echo "$PROP r$k: holds.py exit=$h check exit=$rc $(grep -E '^(VIOLATION|UNDECIDED|CHECKER)' /tmp/rfcheck_${PROP}_$k.out | sed -E 's/replay=[^ ]* //' | cut -c1-170 | head -4 | tr '\n' '|')"
   echo "{\"property\": \"$PROP\", \"holds_py_exit\": $h, \"check_exit\": $rc}" > $D/verdict.json
-  rm -rf $T
+  git -C /repo worktree remove --force $T
 done
